@@ -7,6 +7,7 @@ import (
 	"context"
 	"encoding/binary"
 
+	"github.com/filecoin-project/go-f3/certs"
 	"github.com/filecoin-project/go-f3/gpbft"
 	"github.com/filecoin-project/go-f3/manifest"
 	sym "github.com/filecoin-project/go-f3/internal/verifsym"
@@ -16,16 +17,26 @@ import (
 
 // verifExporter builds a store with k certificates and returns it with its model.
 func verifExporter(ctx context.Context, first uint64, freq uint64, k int) (*Store, *verifRef) {
+	return verifExporterQuiet(ctx, first, freq, k, k)
+}
+
+// verifExporterQuiet: certificates with index >= quietFrom leave the power
+// table unchanged (empty delta).
+func verifExporterQuiet(ctx context.Context, first uint64, freq uint64, k int, quietFrom int) (*Store, *verifRef) {
 	ds := newVerifDS()
 	cs, err := CreateStore(ctx, ds, first, verifTableSeq(0))
 	sym.Assume(err == nil)
 	verifSetFreq(cs, freq)
 	ref := &verifRef{first: first, tables: []gpbft.PowerEntries{verifTableSeq(0)}}
 	for j := 0; j < k; j++ {
-		c := verifCert(ref.next(), int64(10*j), 2, ref.tables[j], verifTableSeq(j+1))
+		next := verifTableSeq(j + 1)
+		if j >= quietFrom {
+			next = ref.tables[j]
+		}
+		c := verifCert(ref.next(), int64(10*j), 2, ref.tables[j], next)
 		sym.Assume(cs.Put(ctx, c) == nil)
 		ref.certs = append(ref.certs, c)
-		ref.tables = append(ref.tables, verifTableSeq(j+1))
+		ref.tables = append(ref.tables, next)
 	}
 	return cs, ref
 }
@@ -98,9 +109,11 @@ func VerifC17_RoundTrip() {
 func VerifC17_Malformed() {
 	ctx := context.Background()
 	first := uint64(2)
-	freq := 1 + uint64(sym.Choice("freq-minus-1", 2))
+	freq := 1 + uint64(sym.Choice("freq-minus-1", 4)) // checkpoints after each, every 2nd, ... 4th instance
 	k := 3
-	cs, _ := verifExporter(ctx, first, freq, k)
+	// the last 0..2 certificates may leave the power table unchanged
+	quietFrom := k - sym.Choice("quiet-tail", 3)
+	cs, ref := verifExporterQuiet(ctx, first, freq, k, quietFrom)
 	var buf bytes.Buffer
 	_, hdr, err := cs.ExportSnapshot(ctx, first+uint64(k-1), &buf)
 	sym.Assume(err == nil)
@@ -112,7 +125,20 @@ func VerifC17_Malformed() {
 	}
 	var m *manifest.Manifest
 	var out [][]byte
-	switch sym.Choice("corruption", 11) {
+	switch sym.Choice("corruption", 12) {
+	case 11:
+		// one certificate's delta replaced by another (its commitment kept): the
+		// tables derived from then on differ from what the certificates commit to
+		sym.Cover("tampered-delta")
+		j := sym.Choice("tampered-certificate", k)
+		bad := *ref.certs[j]
+		// tables[j] is table number min(j, quietFrom) of the sequence; two further on
+		// differs both from it and from the genuine successor
+		bad.PowerTableDelta = certs.MakePowerTableDiff(ref.tables[j], verifTableSeq(min(j, quietFrom)+2))
+		var b bytes.Buffer
+		_, _ = writeSnapshotCborEncodedBlock(&b, &bad)
+		out = [][]byte{blocks[0], blocks[1], blocks[2], blocks[3]}
+		out[j+1] = b.Bytes()
 	case 0:
 		sym.Cover("drop-middle")
 		out = [][]byte{blocks[0], blocks[1], blocks[3]}
